@@ -34,6 +34,8 @@ class C19(Prop):
   ]
   rule = ('stubbed: projection status 0..9 x success T/F and line status 0..9 x success T/F on {leaf, tree, tree with MF}, flat / device-shaped start, step sizes > 0; '
           'real: convex leaves / trees (single- and multi-row), random feasible starts flat and device-shaped, prices of all shapes, step sizes 1/8..4, 1-4 repeated steps; '
+          'two targeted families: "overshoot" (slots on a bound with the gradient pointing outward next to slots with stepsize x curvature > 2, step sizes 1/2/4) and '
+          '"face" (a cumulative / aggregate bound active together with the box, raw step leaving the box in every slot); '
           'non-trivial: the start is not first-order optimal (projected-gradient residual > 1e-3)')
   sizes = {'quick': 60, 'thorough': 1500}
   assumptions = [
@@ -57,7 +59,111 @@ class C19(Prop):
             'stepsize': C.fs(C.dy(rng, 0.125, 4, 3)),
             'res_proj': mk(st_p, ok_p, N), 'res_line': rl, 'probe': G.dyadic_flow(rng, m), 'tprobe': C.fs(C.dy(rng, 0, 1, 3))}
 
+  def overshoot_case(self, rng, tier):
+    """geometry in which only the limited minimisation ALONG THE PROJECTED SEGMENT keeps the cost from rising:
+    strongly curved slots with stepsize x curvature > 2 started away from their optimum, next to slots that sit on a
+    bound with the gradient pointing out of the box (so the projection changes the direction).  Leaves: ADevice with a
+    per-slot polynomial a x^2 + b x, or IDevice2 with a steep marginal-cost line; single row or a row of a tree."""
+    from fractions import Fraction as Fr
+    n = rng.randint(2, 5)
+    alpha = rng.choice([1, 2, 4])
+    cls = rng.choice(['ADevice', 'ADevice', 'IDevice2'])
+    pinned = [rng.random() < 0.4 for _ in range(n)]
+    if all(pinned) or not any(pinned):
+      pinned[0] = True; pinned[-1] = False
+    lb, hb, start, price = [], [], [], []
+    if cls == 'ADevice':
+      cs = []
+      for k in range(n):
+        lo = C.dy(rng, -1, 1); w = C.dy(rng, 1, 3)
+        lb.append(lo); hb.append(lo + w)
+        if pinned[k]:       # weak curvature, on the upper bound, price pushes further up (or mirrored on the lower bound)
+          a = Fr(rng.randint(0, 2), 32); up = rng.random() < 0.5
+          x0 = lo + w if up else lo
+          cs.append([a, Fr(0)])
+          g0 = 2*a*x0
+          price.append(-(g0 + C.dy(rng, 1, 4)) if up else -g0 + C.dy(rng, 1, 4))
+          start.append(x0)
+        else:               # curvature 2a with stepsize * 2a in (2, 16]; optimum strictly inside; start near a bound
+          a = Fr(rng.choice([2, 3, 4, 6, 8]), 2*alpha) if alpha > 1 else Fr(rng.choice([3, 4, 6, 8]), 2)
+          opt = lo + w*Fr(rng.randint(2, 6), 8)
+          cs.append([a, -2*a*opt])
+          price.append(Fr(0))
+          start.append(lo + w*Fr(rng.choice([0, 1, 7, 8]), 8))
+      d = {'cls': 'ADevice', 'n': n, 'lb': [C.fs(x) for x in lb], 'hb': [C.fs(x) for x in hb], 'cbs': [],
+           'prm': {'f': {'k': 'poly', 'cs': [[C.fs(a), C.fs(b), '0'] for a, b in cs], 'off': '0'}}, '_py': {'bform': 'table', 'cform': None}}
+    else:
+      pl, ph = [], []
+      for k in range(n):
+        lo = C.dy(rng, 0, 2); w = Fr(rng.choice([1, 2, 4]), 4)
+        lb.append(lo); hb.append(lo + w)
+        if pinned[k]:
+          pl.append(Fr(-1, 4)); ph.append(Fr(-1, 8))
+          up = rng.random() < 0.5
+          start.append(lo + w if up else lo)
+          price.append(-C.dy(rng, 1, 4) if up else C.dy(rng, 1, 4))
+        else:               # slope (ph - pl)/w >= 3/alpha ... stepsize * slope > 2
+          pl.append(Fr(-8)); ph.append(Fr(-8) + w*Fr(rng.choice([3, 4, 6, 8]), 1))
+          start.append(lo + w*Fr(rng.choice([0, 1, 7, 8]), 8))
+          price.append(-(pl[-1] + (ph[-1] - pl[-1])*Fr(rng.randint(2, 6), 8)))     # optimum strictly inside
+      d = {'cls': 'IDevice2', 'n': n, 'lb': [C.fs(x) for x in lb], 'hb': [C.fs(x) for x in hb], 'cbs': [],
+           'prm': {'p_l': [C.fs(x) for x in pl], 'p_h': [C.fs(x) for x in ph]}, '_py': {'bform': 'table', 'cform': None}}
+    if rng.random() < 0.5:
+      m = {'tree': G.leaf_tree(d, 'a'), 'n': n}
+      p = [C.fs(x) for x in price]
+      st = [C.fs(x) for x in start]
+    else:
+      o = G.convex_leaf(rng, tier, n, [rng.choice(['Device', 'IDevice2', 'CDevice'])], with_cbounds=False)
+      t = {'k': 'node', 'id': 'root', 'sb': None, 'sub': False, 'ch': [{'k': 'leaf', 'id': 'a', 'dev': d}, {'k': 'leaf', 'id': 'b', 'dev': o}]}
+      m = {'tree': t, 'n': n}
+      p = [C.fs(x) for x in price]
+      mid = [(C.F(a) + C.F(b))/2 for a, b in zip(o['lb'], o['hb'])]
+      st = [C.fs(x) for x in start] + [C.fs(x) for x in mid]
+    return {'kind': 'real', 'family': 'overshoot', 'model': m, 'p': p, 'sshape': rng.choice(['flat', 'dev']), 'stepsize': C.fs(alpha),
+            'seed': 0, 'start': st, 'repeat': rng.choice([1, 2, 3])}
+
+  def face_case(self, rng, tier):
+    """a cumulative (single row) or aggregate (tree) bound active at the start TOGETHER with the box: the start lies
+    on the face `sum = H` strictly inside the box, the per-slot prices differ and the raw gradient step leaves the box in
+    every slot, so the nearest feasible point is a vertex-ish point of the face far from the start."""
+    from fractions import Fraction as Fr
+    n = rng.randint(2, 5)
+    alpha = rng.choice([1, 2, 4])
+    w = Fr(rng.choice([1, 2, 4]), 2)
+    lo = C.dy(rng, 0, 2)
+    frac = Fr(rng.randint(2, 6), 8)
+    prices = rng.sample([Fr(-k, 2) for k in range(2*int(w) + 2, 2*int(w) + 14)], n)      # all < -w/alpha * ... distinct, push up
+    def dev(cls, cbs):
+      d = G.convex_leaf(rng, tier, n, [cls], with_cbounds=False)
+      d['lb'] = [C.fs(lo)]*n; d['hb'] = [C.fs(lo + w)]*n; d['_py']['bform'] = 'table'
+      if cls == 'IDevice2':
+        d['prm'] = {'p_l': '-1/4', 'p_h': '-1/8'}
+      if cbs:
+        d['cbs'] = cbs; d['_py']['cform'] = '4tuples'
+      return d
+    cls = rng.choice(['Device', 'Device', 'IDevice2', 'CDevice'])
+    if rng.random() < 0.5:
+      H = n*(lo + w*frac)
+      d = dev(cls, [[C.fs(n*lo - 1), C.fs(H), 0, n]])
+      m = {'tree': G.leaf_tree(d, 'd'), 'n': n}
+      st = [C.fs(lo + w*frac)]*n
+    else:
+      a, b = dev(cls, None), dev('Device', None)
+      fa, fb = frac, Fr(rng.randint(1, 7), 8)
+      H = 2*lo + w*(fa + fb)
+      t = {'k': 'node', 'id': 'root', 'sb': [[C.fs(2*lo - 1), C.fs(H)]]*n, 'sub': False,
+           'ch': [{'k': 'leaf', 'id': 'a', 'dev': a}, {'k': 'leaf', 'id': 'b', 'dev': b}]}
+      m = {'tree': t, 'n': n}
+      st = [C.fs(lo + w*fa)]*n + [C.fs(lo + w*fb)]*n
+    return {'kind': 'real', 'family': 'face', 'model': m, 'p': [C.fs(x) for x in prices], 'sshape': rng.choice(['flat', 'dev']),
+            'stepsize': C.fs(alpha), 'seed': 0, 'start': st, 'repeat': rng.choice([1, 2, 3])}
+
   def real_case(self, rng, tier):
+    r = rng.random()
+    if r < 0.2:
+      return self.overshoot_case(rng, tier)
+    if r < 0.35:
+      return self.face_case(rng, tier)
     for _ in range(6):        # a feasible model (LP over the implementation's polytope); starts are drawn inside it
       m = G.random_model(rng, tier)
       R, n = G.model_rows(m), m['n']
@@ -205,11 +311,11 @@ class C19(Prop):
     R, n = G.model_rows(m), m['n']
     N = R*n
     classes = sorted(set(l['dev']['cls'] for l in G.all_leaves(m['tree'])))
-    base = {'classes': classes, 'mf': gen.tree_has(m['tree'], 'mf'), 'rows': R, 'sshape': case['sshape']}
+    base = {'classes': classes, 'mf': gen.tree_has(m['tree'], 'mf'), 'rows': R, 'sshape': case['sshape'], 'family': case.get('family', 'random')}
     poly = G.polytope(dev, N)
     if not poly[4]:
       return []
-    s = G.feasible_start(dev, N, poly, case['seed'])
+    s = n_.array([C.pf(v) for v in case['start']]) if case.get('start') else G.feasible_start(dev, N, poly, case['seed'])
     if s is None or G.violation(dev, s)[0] > 1e-9:
       self.ev['no_feasible_start'] += 1
       return []
